@@ -45,7 +45,7 @@ P = {
    text="Lean theorems over Model/World: wiring invariant of every Application configuration, running flag = last effective power command (own or managing parent's) for every history of arbitrary operations, clock links = running clock owners (no duplicates), generator runs iff a link exists, indications exactly to those links at multiples of the period, POWEROFF forgets hopping and queue, port plan; the model is compared with the real objects on generated configurations and histories; an independent reference judges running flags, indications, ports on the real code"),
  "C02": dict(title="Virtual Um routing", corr=["traffic","mixed","drop"], orc=["traffic","drop","mixed","wrap"],
    text="Lean theorems: forwardMsg calls handleDataMsg exactly once for each running other transceiver whose Rx frequency in FN (fixed or hopping per TS 45.002) equals the sender's Tx frequency, for no other; datagram delivered iff recipient and not suppressed and metadata valid; nothing to sender/idle/detuned; model tied to the real BurstForwarder/FakeTRX by whole-history correspondence; oracle judges the real routing decisions (traced handle_data_msg calls) against an independent reference incl. an independent hopping implementation"),
- "C10": dict(title="Forwarded bursts: bits and metadata", corr=["traffic","mixed"], orc=["traffic","mixed"],
+ "C10": dict(title="Forwarded bursts: bits and metadata", corr=["radio","traffic","mixed"], orc=["radio","traffic","mixed"],
    text="Lean theorems on handleDataMsg: soft bits 127/-127 per hard bit, FN/TN preserved, recipient's header version with legacy padding on v0, RSSI formula or FAKE_RSSI window, ToA256 window minus 256*TA, C/I window, modulation by burst length, TSC detection on NB/SB/AB layouts over the regenerated training-sequence table; correspondence of every emitted datagram; oracle parses the delivered datagrams per the TRXD layout and checks them against the reference windows"),
  "C18": dict(title="Burst-loss simulation", corr=["traffic","mixed"], orc=["drop","traffic"],
    text="Lean theorems: after FAKE_DROP n p exactly the first n unmuted bursts with fn % p = 0 are suppressed (induction over any burst stream), mute suppresses all and leaves the counter, one NOPE (no bits, -110/0/-30) per suppressed burst on v1 and nothing on v0, bad arguments rejected without change; correspondence incl. drop counters in the final state; oracle counts suppressed bursts / NOPEs on the real code"),
